@@ -5,6 +5,8 @@ def _g(name, fn, call, repl, reach="", props=None, **kw):
              reach=["post"] + [x for x in ("a", "b", "c", "d") if ('REACH:%s"' % x) in reach],
              props=props or {"C01": "quick", "C04": "quick", "C05": "quick"}, timeout=300, cost=5)
     d.update(kw)
+    if "extra_defs" in kw:
+        d["defs"] = d["defs"] + kw["extra_defs"]
     return d
 def R(label, cond):
     return 'if (%s) { __CPROVER_assert(0, "REACH:%s"); }' % (cond, label)
@@ -13,7 +15,7 @@ GROUPS = [
  _g("sdo_abort", "COSdoAbort", "COSdoAbort(%s, H_A32)" % SRVP, []),
  _g("sdo_abortreq", "COSdoAbortReq", "COSdoAbortReq(%s)" % SRVP, []),
  _g("sdo_getobject", "COSdoGetObject", "CO_ERR e = COSdoGetObject(%s, H_A16)" % SRVP, ["COSdoAbort"],
-    R("a", "e == CO_ERR_NONE") + R("b", "e != CO_ERR_NONE && V_FRM.Data[4] == 0x11"), timeout=600, cost=40),
+    R("a", "e == CO_ERR_NONE") + R("b", "e != CO_ERR_NONE && V_FRM.Data[4] == 0x11"), timeout=600, cost=40, extra_defs=["VW_DICT_SMALL=3"]),
  _g("sdo_dl_exp", "COSdoDownloadExpedited", "CO_ERR e = COSdoDownloadExpedited(%s)" % SRVP, ["COObjWrValue", "COSdoGetSize", "COSdoAbort"],
     R("a", "e == CO_ERR_NONE") + R("b", "e != CO_ERR_NONE && V_FRM.Data[4] == 0x30")),
  _g("sdo_ul_exp", "COSdoUploadExpedited", "CO_ERR e = COSdoUploadExpedited(%s)" % SRVP, ["COObjRdValue", "COSdoGetSize", "COSdoAbort", "COSdoInitUploadSegmented"],
@@ -33,7 +35,7 @@ GROUPS = [
  _g("sdo_dl_blk_end", "COSdoEndDownloadBlock", "CO_ERR e = COSdoEndDownloadBlock(%s)" % SRVP, ["COObjWrBufCont", "COSdoAbort"],
     R("a", "e == CO_ERR_NONE")),
  _g("sdo_ul_blk_init", "COSdoInitUploadBlock", "CO_ERR e = COSdoInitUploadBlock(%s)" % SRVP, ["COObjRdBufStart", "COSdoGetSize", "COSdoAbort", "COSdoAbortReq"],
-    R("a", "e == CO_ERR_NONE") + R("b", "e != CO_ERR_NONE && V_FRM.Data[4] == 0x02")),
+    R("a", "e == CO_ERR_NONE") + R("b", "e != CO_ERR_NONE && V_FRM.Data[4] == 0x02"), extra_defs=["VW_DICT_SMALL=3"]),
  dict(name="sdo_ul_blk", fn="COSdoUploadBlock", form="explicit", harness="sdo_ul_blk.c", tus=["service/cia301/co_ssdo.c", "core/co_dict.c"],
       nondet_static=True, contracts=["sdo.h"], loops={"COSdoUploadBlock.0": "VWL_ulb_move", "COSdoUploadBlock.6": "VWL_ulb_main"},
       loop_tus={"COSdoUploadBlock": "service/cia301/co_ssdo.c"}, unwind_all=9, object_bits=9, reach=["post", "a", "b", "c"],
